@@ -385,6 +385,13 @@ def oracle_never_outside(c):
     return None
 
 
+def oracle_unshared(c):
+    for t in c.extra.get("unshared", []):
+        if t and t[0] == "OTHER":
+            return " ".join(t[1:])
+    return oracle_kernel_equiv(c) if c.kern else None
+
+
 def check_C02(v, tier, seed):
     n = sizes(tier, 26, 130)
     per = sizes(tier, 300, 700)
@@ -392,6 +399,13 @@ def check_C02(v, tier, seed):
             Run("C02-attack-enosys", ["attack", "--seed", str(seed + 104729), "--n", str(max(n // 2, 8)),
                                       "--per-case", str(per), "--no-openat2"])]
     concrete = run_oracle_cases(v, runs, oracle_never_outside, "a lookup escaped the root under an attacker schedule")
+    # whose descriptors does check_current look at?  An emulated lookup through '..' by a thread with its own descriptor
+    # table (unshare(CLONE_FILES)) while the thread-group leader holds another directory under the same numbers: the
+    # outcome is the kernel's (raw openat2 by the same thread)
+    urun = Run("C02-lookup-unshared", ["lookup-unshared"])
+    concrete |= run_oracle_cases(v, [urun], oracle_unshared,
+                                 "an emulated lookup by a thread with a private descriptor table differs from the kernel's")
+    runs.append(urun)
     broken = generic_tie(v, runs, concrete)
 
     def key(c):
@@ -419,6 +433,28 @@ def check_C02(v, tier, seed):
     return cov
 
 
+def oracle_rename_flags(c):
+    """whatever happens inside (also a failing renameat2): RENAME_NOREPLACE never reports success for a destination that
+    exists, and (post line) RENAME_EXCHANGE leaves both names in place"""
+    if c.op[:1] == ["rename"] and len(c.op) >= 4 and c.res[:1] == ["ok"]:
+        flags = int(c.op[1])
+        if flags & 1:
+            try:
+                dst = unhex(c.op[3])
+            except Exception:
+                return None
+            names = set()
+            for e in c.tree:
+                for t in e:
+                    if isinstance(t, str) and t.startswith("x"):
+                        names.add(t)
+                        break
+            if c.op[3] in names:
+                return (f"rename with RENAME_NOREPLACE onto the existing entry {dst.decode('latin1')!r} reported success "
+                        "(the destination was replaced)")
+    return None
+
+
 def oracle_clean_error(c):
     """C10: under an injected fault the operation ends with an error or a tolerated result; no panic,
     nothing leaked, nothing changed outside the root, no success for work not done."""
@@ -438,6 +474,9 @@ def oracle_clean_error(c):
         if n_eagain >= 16 and c.res[:2] != ["err", "SafetyViolation"]:
             return ("openat2 answered EAGAIN 16 times in a row and the operation did not report a safety violation: "
                     + " ".join(c.res[:4]))
+    m = oracle_rename_flags(c)
+    if m:
+        return m
     if c.fdt and c.fdt != ["same"]:
         return "descriptor table changed across the call: " + " ".join(c.fdt)
     for t in c.extra.get("outside", []):
@@ -656,6 +695,15 @@ def check_C14(v, tier, seed):
             Run("C14-valid-enosys", ["root", "--ops", "single_valid", "--seed", str(seed + 7919), "--n", str(max(n // 3, 100)), "--no-openat2"])]
     concrete = run_oracle_cases(v, runs, oracle_effect, "a single-entry operation did not have exactly the effect of the *at call on (in-root parent, final name)")
     concrete |= run_oracle_cases(v, runs, oracle_outside_untouched, "a single-entry operation changed something outside the root")
+    # the hand-made operations of the fault grid (6 of them: rename plain / NOREPLACE onto an existing name / EXCHANGE,
+    # create_file, …) with every system call failing in turn with every errno of the catalogue: the flags of a rename
+    # hold whatever fails (no fallback that drops them)
+    frun = Run("C14-fault-classics", ["fault", "--seed", str(seed + 17), "--n", "6", "--per-case", str(sizes(tier, 400, 2000))])
+    concrete |= run_oracle_cases(v, [frun], lambda c: oracle_rename_flags(c) or next(
+        ("success reported for work that was not done: " + " ".join(t[1:]) for t in c.extra.get("post", [])
+         if t and t[0] == "BAD" and c.op[:1] == ["rename"]), None),
+        "a rename's flags did not hold under an injected fault")
+    runs.append(frun)
     broken = generic_tie(v, runs, concrete)
     cov = coverage_of(runs)
     cov["tie_mismatches"] = broken
@@ -669,6 +717,11 @@ def check_C12(v, tier, seed):
     runs = [Run("C12-mkdir_all", ["root", "--ops", "mkdir_all", "--seed", str(seed), "--n", str(n)]),
             Run("C12-mkdir_all-enosys", ["root", "--ops", "mkdir_all", "--seed", str(seed + 7919), "--n", str(max(n // 3, 100)), "--no-openat2"])]
     concrete = run_oracle_cases(v, runs, oracle_effect, "mkdir_all did not create exactly the missing directories")
+    # mkdir_all by a thread with its own descriptor table (unshare(CLONE_FILES)) while the leader holds another directory
+    # under the same numbers: the directories are created where the path says
+    urun = Run("C12-mkdir-unshared", ["lookup-unshared"])
+    concrete |= run_oracle_cases(v, [urun], oracle_unshared, "mkdir_all from a thread with a private descriptor table")
+    runs.append(urun)
     # an independent expectation for success/failure: the same call on the other backend (the kernel's own in-root
     # resolution decides what exists); a mkdir_all that fails where it has to create is caught here with its input
     pairs = 0
@@ -857,6 +910,7 @@ def check_C11(v, tier, seed):
     runs.append(Run("C11-capi", ["capi-args"] + (["--thorough"] if tier == "thorough" else [])))
     # a process started with stdin closed: descriptor 0 is free, so the first descriptor the kernel hands out during each
     # operation is number 0 (a valid descriptor, which must be wrapped, returned or closed like any other)
+    runs.append(Run("C11-capi-fd0", ["capi-args", "--fd0-free"]))
     runs.append(Run("C11-root-fd0", ["root", "--ops", "all", "--seed", str(seed + 15485863), "--n", str(sizes(tier, 300, 4000)), "--fd0-free"]))
     runs.append(Run("C11-root-fd0-enosys", ["root", "--ops", "all", "--seed", str(seed + 32452843), "--n", str(sizes(tier, 150, 2000)),
                                             "--fd0-free", "--no-openat2"]))
